@@ -1,6 +1,6 @@
 (* C18 — the generated setter table against the hand-pinned path/unit table. *)
 From Coq Require Import Reals Lra List String Bool.
-From SpdVerif Require Import Base.Rx Base.PolingBase Gen.Poling Gen.Sweep Spec.SweepPaths Model.Sweep.
+From SpdVerif Require Import Base.Rx Base.PolingBase Gen.Poling Gen.Sweep Spec.SweepPaths Model.Sweep Proofs.C18_angles.
 Import ListNotations.
 Local Open Scope R_scope.
 
@@ -9,9 +9,6 @@ Proof.
   unfold subset_b. rewrite forallb_forall. intros H x Hx. specialize (H x Hx).
   apply existsb_exists in H. destruct H as [y [Hy E]]. apply String.eqb_eq in E. now subst.
 Qed.
-
-Lemma Rdiv_one x : x / 1 = x.
-Proof. field. Qed.
 
 Section Table.
 Variable snell_internal : beam -> R -> crystal_setup -> R.
